@@ -50,6 +50,10 @@ func ValidateTransaction(ctx sdk.Ctx, k Keeper, stdTx StdTx, params Params, tmNo
 	// attempt to get the public key from the signature
 	if stdTx.Signature.PublicKey != nil && len(stdTx.Signature.PublicKey.RawBytes()) != 0 {
 		pk = stdTx.Signature.PublicKey
+		// the key supplied with the signature must be the key of the message's signer
+		if !sdk.Address(pk.Address()).Equals(stdTx.GetSigner()) {
+			return sdk.ErrUnauthorized("the public key of the signature does not belong to the signer of the message")
+		}
 	} else {
 		// public key in the signature not found so check world state
 		acc := k.GetAccount(ctx, stdTx.GetSigner())
